@@ -7,6 +7,7 @@ import (
 	"fmt"
 	"strings"
 	"time"
+	"unicode/utf16"
 
 	"pgregory.net/rapid"
 )
@@ -43,15 +44,39 @@ type c04Case struct {
 
 func c04EscapeName(name, mode string) string {
 	var sb strings.Builder
-	if mode == "lone-low" || mode == "lone-high" {
+	if strings.Contains(mode, "lone-") {
 		// every U+FFFD of the name is written as an escape of an unpaired surrogate, which is how any
-		// JSON decoder reads such an escape
-		esc := map[string]string{"lone-low": `\udead`, "lone-high": `\ud83d`}[mode]
-		return strings.ReplaceAll(name, "\ufffd", esc)
+		// JSON decoder reads such an escape; "esc+" / "+esc": the character before / after it is
+		// written as an ordinary \uXXXX escape as well, so that the two escapes touch
+		esc := `\udead`
+		if strings.Contains(mode, "lone-high") {
+			esc = `\ud83d`
+		}
+		rs := []rune(name)
+		for i, r := range rs {
+			switch {
+			case r == '\ufffd':
+				sb.WriteString(esc)
+			case strings.HasPrefix(mode, "esc+") && i+1 < len(rs) && rs[i+1] == '\ufffd',
+				strings.HasSuffix(mode, "+esc") && i > 0 && rs[i-1] == '\ufffd':
+				fmt.Fprintf(&sb, "\\u%04x", r)
+			default:
+				sb.WriteRune(r)
+			}
+		}
+		return sb.String()
 	}
 	for i, r := range name {
 		esc := mode == "all" || mode == "upper" || (mode == "first" && i == 0) || (mode == "last" && i == len(name)-1)
 		switch {
+		case esc && r >= 0x10000:
+			// an astral character is escaped as a surrogate PAIR (valid, and must be read as that character)
+			r1, r2 := utf16.EncodeRune(r)
+			if mode == "upper" {
+				fmt.Fprintf(&sb, "\\u%04X\\u%04X", r1, r2)
+			} else {
+				fmt.Fprintf(&sb, "\\u%04x\\u%04x", r1, r2)
+			}
 		case esc && mode == "upper":
 			fmt.Fprintf(&sb, "\\u%04X", r)
 		case esc:
@@ -184,6 +209,12 @@ func c04Check(ctx *vfCtx, c c04Case) {
 	if vfCatch(ctx, "C04", func() { ev, err = impl.NewEventFromUntrustedJSON(append([]byte(nil), wire...)) }) {
 		return
 	}
+	if verr, ok := err.(EventValidationError); ok && verr.Persistable && ev != nil {
+		// "too large but persistable": the event is handed out NEXT TO the error (a field within 255
+		// code points but over 255 bytes); what is handed out is judged like any other result
+		ctx.Class("handed-out-with-a-persistable-size-error")
+		err = nil
+	}
 	if err != nil {
 		// the tampering may make the event unparseable (e.g. type no longer a string): that is a
 		// clean rejection, outside this property
@@ -302,6 +333,11 @@ func c04Gen(t *rapid.T) c04Case {
 	if p.Type == "m.room.member" && rapid.Bool().Draw(t, "lessMember") {
 		p.Type = "m.room.message"
 		p.StateKey = nil
+	}
+	if p.StateKey != nil && p.Type != "m.room.member" && p.Type != "m.room.create" && rapid.IntRange(0, 11).Draw(t, "wideStateKey") == 0 {
+		// a state key within 255 code points but over 255 bytes: "too large but persistable" on receipt
+		wide := strings.Repeat(rapid.SampledFrom([]string{"é", "€", "😀"}).Draw(t, "wideChar"), rapid.SampledFrom([]int{130, 200, 255}).Draw(t, "wideLen"))
+		p.StateKey = &wide
 	}
 	c := c04Case{Version: version, Origin: p.Origin, GenuineFirst: rapid.Bool().Draw(t, "genuineFirst")}
 	if rapid.IntRange(0, 2).Draw(t, "respelt") == 0 {
@@ -443,6 +479,18 @@ func c04EnumEscapedKeys(size, shard, nshards int, emit func(c04Case)) {
 							idx++
 						}
 					}
+					// unknown keys holding an astral character, spelled literally or as an escaped surrogate
+					// pair: the same key in every spelling (covered by the hash like any unknown key)
+					for _, name := range []string{"smile\U0001F600", "\U0001F600", "a\U00010000b\U0010FFFF"} {
+						for _, mode := range []string{"", "first", "last", "all", "upper"} {
+							for _, gf := range []bool{false, true} {
+								if idx%nshards == shard {
+									emit(c04Case{Version: v, Event: ev, Origin: p.Origin, Tampers: []c04Tamper{{Kind: "top_set", Key: name, Value: vfBytes(`{"evil":1}`)}}, GenuineFirst: gf, EscapeKey: name, EscapeMode: mode})
+								}
+								idx++
+							}
+						}
+					}
 					// names that become an envelope / stripped name when an unpaired-surrogate escape is
 					// DROPPED instead of being read as U+FFFD: "unsigned\udead" is an unknown key
 					for _, base := range []string{"auth_events", "content", "depth", "event_id", "hashes", "membership", "origin",
@@ -452,7 +500,7 @@ func c04EnumEscapedKeys(size, shard, nshards int, emit func(c04Case)) {
 							break
 						}
 						for _, name := range []string{base + "\ufffd", "\ufffd" + base, base[:2] + "\ufffd" + base[2:]} {
-							for _, mode := range []string{"lone-low", "lone-high"} {
+							for _, mode := range []string{"lone-low", "lone-high", "esc+lone-low", "lone-high+esc"} {
 								if idx%nshards == shard {
 									emit(c04Case{Version: v, Event: ev, Origin: p.Origin, Tampers: []c04Tamper{{Kind: "top_set", Key: name, Value: vfBytes(`{"evil":1}`)}}, EscapeKey: name, EscapeMode: mode})
 								}
